@@ -14,6 +14,7 @@ set_option linter.unusedSimpArgs false
 set_option linter.unusedVariables false
 
 namespace Rig.C10
+open Rig.Gen.Router
 
 /-! the conversions `toC04` / `ofC04` are defined in Model/C10.lean (the driver evaluates them) -/
 
@@ -229,6 +230,101 @@ theorem treeTables_c04_lookup (nets : List Net) (hwf : ∀ n ∈ nets, n.tree.WF
     · intro l hl6
       rw [← h, hb.2 l (by omega)]
       exact ⟨fun hn => hs1 _ hn, fun ⟨o, ho, hat, hsrc⟩ => hsrc ▸ hs2 o ho hat⟩
+
+/-! ### what the router does with a loaded table -/
+
+theorem findSome_none {α β : Type} (f : α → Option β) : ∀ l : List α, (∀ a ∈ l, f a = none) → l.findSome? f = none
+  | [], _ => rfl
+  | a :: l, h => by
+    simp only [List.findSome?_cons, h a (by simp)]
+    exact findSome_none f l (fun b hb => h b (by simp [hb]))
+
+theorem findSome_block (f : Nat → Option Ent) (g : Entry → Option Ent) :
+    ∀ (entries : List Entry) (b : Nat), (∀ i, i < entries.length → f (b + i) = g (entries.getD i dfltEntry)) →
+      (List.range' b entries.length).findSome? f = entries.findSome? g
+  | [], _, _ => rfl
+  | e :: es, b, h => by
+    simp only [List.length_cons, List.range'_succ, List.findSome?_cons]
+    have h0 := h 0 (by simp)
+    simp only [Nat.add_zero, List.getD_cons_zero] at h0
+    rw [h0]
+    have ih := findSome_block f g es (b + 1) (by
+      intro i hi
+      have := h (i + 1) (by simp; omega)
+      simp only [List.getD_cons_succ] at this
+      rw [← this]; congr 1; omega)
+    rw [ih]
+
+theorem lookup_findSome (entries : List Entry) (k app : Nat) :
+    entries.findSome? (fun e => if e.matches k then some (entOf app e) else none) =
+      (lookup entries k).map (entOf app) := by
+  induction entries with
+  | nil => rfl
+  | cons e es ih =>
+    simp only [List.findSome?_cons, lookup, List.find?_cons] at ih ⊢
+    cases e.matches k with
+    | true => rfl
+    | false => exact ih
+
+/-- **What the router does after a load.**  If no used row outside the loaded block matches key `k`,
+the router's first-match decision for `k` is the table's first-match `lookup`, as the row the entry
+became (same key, mask, route word; the application's id). -/
+theorem loaded_router_lookup (s : Chip) (buf b app : Nat) (entries : List Entry) (k : Nat)
+    (hb : b + entries.length ≤ rtrEntries)
+    (hother : ∀ j, j < rtrEntries → ¬ (b ≤ j ∧ j < b + entries.length) → rowHit s.rows k j = none) :
+    routerLookup (loadedChip s buf b app entries).rows k = (lookup entries k).map (entOf app) := by
+  have hsplit : List.range rtrEntries =
+      List.range' 0 b ++ (List.range' b entries.length ++ List.range' (b + entries.length) (rtrEntries - (b + entries.length))) := by
+    rw [List.range_eq_range', List.range'_append_1]
+    have := @List.range'_append_1 0 b (entries.length + (rtrEntries - (b + entries.length)))
+    rw [Nat.zero_add] at this
+    rw [this]; congr 1; omega
+  unfold routerLookup
+  rw [hsplit, List.findSome?_append, List.findSome?_append]
+  have hpre : (List.range' 0 b).findSome? (rowHit (loadedChip s buf b app entries).rows k) = none := by
+    apply findSome_none
+    intro j hj
+    have hj' : j < b := by simpa [List.mem_range'_1] using hj
+    have hout : ¬ (b ≤ j ∧ j < b + entries.length) := by omega
+    simp only [rowHit, loaded_rows_out s buf b app entries j hout]
+    exact hother j (by omega) hout
+  have hpost : (List.range' (b + entries.length) (rtrEntries - (b + entries.length))).findSome?
+      (rowHit (loadedChip s buf b app entries).rows k) = none := by
+    apply findSome_none
+    intro j hj
+    have hj' : b + entries.length ≤ j ∧ j < rtrEntries := by
+      simp only [List.mem_range'_1] at hj; omega
+    have hout : ¬ (b ≤ j ∧ j < b + entries.length) := by omega
+    simp only [rowHit, loaded_rows_out s buf b app entries j hout]
+    exact hother j hj'.2 hout
+  rw [hpre, hpost]
+  simp only [Option.none_or, Option.or_none]
+  rw [findSome_block (rowHit (loadedChip s buf b app entries).rows k)
+    (fun e => if e.matches k then some (entOf app e) else none) entries b (by
+      intro i hi
+      simp only [rowHit, loaded_rows_in s buf b app entries i hi]
+      rfl)]
+  exact lookup_findSome entries k app
+
+/-- **... and that is what C04's model computes**: the route word the router applies to a 32-bit key `k`
+after the load is the route of C04's first-match `lookup` on the converted table (none iff none) - the
+link between the router contents proved by `load_exact` and the tables C04's theorems speak about. -/
+theorem loaded_router_lookup_c04 (s : Chip) (buf b app : Nat) (entries : List Entry) (k : Nat)
+    (hb : b + entries.length ≤ rtrEntries)
+    (hT : ∀ e ∈ entries, e.key < 4294967296 ∧ e.mask < 4294967296) (hk : k < 4294967296)
+    (hother : ∀ j, j < rtrEntries → ¬ (b ≤ j ∧ j < b + entries.length) → rowHit s.rows k j = none) :
+    (routerLookup (loadedChip s buf b app entries).rows k).map (·.route) =
+      (Rig.C04.lookup (entries.map toC04) (BitVec.ofNat 32 k)).map (·.route) := by
+  rw [loaded_router_lookup s buf b app entries k hb hother, toC04_lookup entries k hT hk]
+  cases lookup entries k <;> rfl
+
+/-- non-vacuity of `hother`: on a router without used rows no row matches anything; and the router
+decision after loading two entries at rows 1, 2 for key 12 is the second entry -/
+example : ∀ k j, rowHit exChip.rows k j = none := fun _ _ => rfl
+example : routerLookup (loadedChip exChip 0x60001000 1 7
+      [{ route := [0], key := 5, mask := 7, sources := [none] },
+       { route := [8], key := 4, mask := 6, sources := [some 3, none] }]).rows 12 =
+    some { route := 256, key := 4, mask := 6, app := 7, core := 0 } := by decide +kernel
 
 /-- non-vacuity: an entry with all kinds of sources converts to the expected words and back -/
 example : toC04 { route := [0, 8, 23], key := 5, mask := 4294967295, sources := [some 3, none] } =
